@@ -14,6 +14,7 @@ CHECKS = {
  "C10": ("SIM-SYS", "seeded search over fault plans attached to statements (sink write/flush throws, fwrite ENOSPC on a real FileSink, run-time format mismatch, user formatter throwing std / non-std types, LOG_BACKTRACE without init) x schedules; neighbours-intact exactly-once oracle per sink, file content oracle, notifier count, backend liveness in the fair phase; sampling, not proof", SIMSYS_NOTE, TECH),
  "C18": ("SIM-SYS", "seeded search over store/flush/re-init histories (capacity 1-8, 0..3*capacity+3 stores per cycle, explicit and flush-level triggered flushes, several cycles incl. after a wrapped flush) x schedules; sink sequence compared with an executable reference ring model; sampling, not proof", SIMSYS_NOTE + "; one writer thread per backtrace logger, re-initialisation only with an empty ring", TECH),
  "C20": ("SIM-SYS", "seeded search over thread start/exit histories (waves of 1-512 real short-lived threads, sizes biased to k*256+-1, backend stalled or busy during the wave), shrink requests after growth; context count through the public ThreadContextManager API at a quiescent point in the fair phase + exactly-once delivery oracle; sampling, not proof", SIMSYS_NOTE, TECH),
+ "C05": ("SIM-SYS", "seeded search over schedules with a virtual clock (System and TSC), stalls between a thread's clock read and its commit, backend stalls at the clock read of a pass next to first-time threads, small soft/hard limits; running-maximum timestamp oracle over all write_log calls with a conservative lateness excuse; sampling, not proof", SIMSYS_NOTE + "; TSC runs tolerate inversions below RdtscClock's 3.4 us resync window", TECH),
  "C06": ("SIM-SYS", "seeded search over schedules, all four queue types, first-time threads next to backend stalls, recording and real file sinks; the oracle is evaluated in the very scheduler step in which flush_log() returns (sink records, flush marks, file read back through a fresh descriptor); liveness judged only in the fair phase; sampling, not proof", SIMSYS_NOTE + "; cross-thread clause with a TSC logger involved demanded only beyond RdtscClock's 3.4 us resync window", TECH),
 }
 
